@@ -67,6 +67,8 @@ def run(prog, chk):
     chk.rule(strops.check_number_formatting, prog, chk)  # results are exact up to the 3-decimal *output* rounding  # A14.str-ops: how this property's strings are cut up is a reviewed, frozen inventory
     from props import C03 as _C03
     chk.rule(_C03.graphics_vocabulary, prog, chk)  # each of rect / circle / ellipse / line is laid out also when written with a separate end tag
+    from props import strops as _so
+    chk.rule(_so.affix_test_sees_what_parser_sees, prog, chk)  # `dw="50% "` and `dw="50%"` are the same shorthand value
 
 
 def _arms(owner):
